@@ -15,7 +15,10 @@ Inductive call :=
 | RFreq63 (n total : Z)
 | RFreqMod (n m total : Z)
 (* Shuffle(n, swap) for a huge n, aborted by the callback after the first swap: OPairs [(i, j)] *)
-| RShuffleBig (n : Z).
+| RShuffleBig (n : Z)
+(* [total] draws of Float32 (bits = 32) or Float64 (bits = 64) on the runtime's own source, many goroutines:
+   OList [below; above] = how many results were < 0 resp. >= 1 (a rounding slip shows up once in 2^25 draws or so) *)
+| RBulkFloat (bits total : Z).
 
 Inductive obs := OVal (v : Z) | OList (l : list Z) | OPairs (l : list (Z * Z)) | OPanic.
 
@@ -70,6 +73,7 @@ Definition prop_ok (c : call) (o : obs) : bool :=
   | RShuffleBig n, OPairs sw =>
       (0 <=? n) && forallb (fun ij => in_range n (fst ij) && in_range n (snd ij) && (snd ij <=? fst ij)) sw
   | RShuffleBig n, OPanic => n <? 0
+  | RBulkFloat _ total, OList cnt => (0 <? total) && zlist_eqb cnt [0; 0]
   | (RFreq n total | RFreq63 n total), OList cnt =>
       Nat.eqb (length cnt) (Z.to_nat n) && (fold_left Z.add cnt 0 =? total)
       && forallb (fun c => (total <=? 2 * c * n) && (c * n <=? 2 * total)) cnt
